@@ -34,6 +34,8 @@ type fnSpec struct {
 	calls            map[string]string // Go callee (canonical text) -> Lean function; "list:f" = f applied to the list of arguments
 	methods          map[string]string // method name -> Lean function taking the receiver first
 	ignore           []string          // prefixes of expression statements that are skipped (logging)
+	rn               string            // the receiver's name in the dictionary ("" = receiver not mentioned)
+	pn               []string          // the parameters' names in the dictionary, by position ("" / missing = keep)
 	mode             string            // "" plain | "err": (T, error) -> Except Bytes T | "opt": nil -> none, x -> some x
 	locals           map[string]bool
 	doc              string
@@ -421,6 +423,29 @@ func (c *cg) stmts(list []ast.Stmt, k func(ind string) string, ind string) strin
 	return ind + c.fail("statement of kind %T", list[0])
 }
 
+// renameIdents renames the identifiers that stand for the receiver / parameters (not field names
+// after a dot, not keys of struct literals)
+func renameIdents(n ast.Node, ren map[string]string) {
+	skip := map[*ast.Ident]bool{}
+	ast.Inspect(n, func(x ast.Node) bool {
+		switch y := x.(type) {
+		case *ast.SelectorExpr:
+			skip[y.Sel] = true
+		case *ast.KeyValueExpr:
+			if id, ok := y.Key.(*ast.Ident); ok {
+				skip[id] = true
+			}
+		case *ast.Ident:
+			if !skip[y] {
+				if to, ok := ren[y.Name]; ok {
+					y.Name = to
+				}
+			}
+		}
+		return true
+	})
+}
+
 func findFunc(f *ast.File, recv, name string) *ast.FuncDecl {
 	for _, d := range f.Decls {
 		fd, ok := d.(*ast.FuncDecl)
@@ -449,6 +474,28 @@ func translate(repo string, s *fnSpec) (string, error) {
 	}
 	s.locals = map[string]bool{}
 	c := &cg{s: s}
+	// the dictionary speaks of the receiver and the parameters under fixed names: a function whose
+	// receiver or parameters were merely renamed translates to the same definition
+	ren := map[string]string{}
+	if s.rn != "" && fd.Recv != nil && len(fd.Recv.List) == 1 && len(fd.Recv.List[0].Names) == 1 {
+		if a := fd.Recv.List[0].Names[0].Name; a != s.rn {
+			ren[a] = s.rn
+		}
+	}
+	if fd.Type.Params != nil {
+		i := 0
+		for _, fl := range fd.Type.Params.List {
+			for _, n := range fl.Names {
+				if i < len(s.pn) && s.pn[i] != "" && n.Name != s.pn[i] {
+					ren[n.Name] = s.pn[i]
+				}
+				i++
+			}
+		}
+	}
+	if len(ren) > 0 {
+		renameIdents(fd.Body, ren)
+	}
 	var body string
 	if s.mode == "void" {
 		// a method that only updates its receiver map: `m[k] = v`, or a call of another such method
@@ -501,7 +548,8 @@ var fieldExprs = map[string]string{
 }
 
 func ctxSpec(recv, name, lean, binders, ret, mode string, exprs map[string]string) *fnSpec {
-	return &fnSpec{file: "build_context.go", recv: recv, name: name, lean: lean, binders: binders, ret: ret, mode: mode,
+	pn := map[string][]string{"PushDir": {"dir"}, "Push": {"prefix"}, "JoinPath": {"name"}, "initPrefixContext": {"c", "d", "prefix"}, "initDirContext": {"c", "d", "dir"}}[name]
+	return &fnSpec{file: "build_context.go", recv: recv, name: name, lean: lean, binders: binders, ret: ret, mode: mode, rn: "c", pn: pn,
 		exprs:  exprs,
 		calls: map[string]string{"filepath.Join": "list:Pgs.FilePath.join", "filepath.Clean": "Pgs.FilePath.clean",
 			"lit:prefixContext": "mkPrefixContext parent d", "lit:dirContext": "mkDirContext prefixContext p",
@@ -510,13 +558,16 @@ func ctxSpec(recv, name, lean, binders, ret, mode string, exprs map[string]strin
 }
 
 func pfSpec(recv, lean, binders string, exprs map[string]string) *fnSpec {
-	return &fnSpec{file: "artifact.go", recv: recv, name: "ProtoFile", lean: lean, binders: binders, ret: "Except Pgs.Bytes RespFile", mode: "err", exprs: exprs,
+	return &fnSpec{file: "artifact.go", recv: recv, name: "ProtoFile", lean: lean, binders: binders, ret: "Except Pgs.Bytes RespFile", mode: "err", exprs: exprs, rn: "f",
 		calls: map[string]string{"cleanGeneratorFileName": "cleanGeneratorFileName", "proto.String": "id",
 			"optlit:plugin_go.CodeGeneratorResponse_File": "RespFile.mk Name InsertionPoint Content"}}
 }
 
 func parSpec(name, lean, binders, ret, mode string) *fnSpec {
-	return &fnSpec{file: "parameters.go", recv: "Parameters", name: name, lean: lean, binders: binders, ret: ret, mode: mode,
+	pn := map[string][]string{"StrDefault": {"name", "def"}, "Str": {"name"}, "SetStr": {"name", "s"}, "SetOutputPath": {"path"},
+		"IntDefault": {"name", "def"}, "Int": {"name"}, "SetInt": {"name", "i"}, "UintDefault": {"name", "def"}, "Uint": {"name"}, "SetUint": {"name", "ui"},
+		"BoolDefault": {"name", "def"}, "Bool": {"name"}, "SetBool": {"name", "b"}}[name]
+	return &fnSpec{file: "parameters.go", recv: "Parameters", name: name, lean: lean, binders: binders, ret: ret, mode: mode, rn: "p", pn: pn,
 		exprs: map[string]string{"p": "p", "name": "name", "def": "def_", "s": "s", "i": "i", "ui": "ui", "b": "b", "path": "path",
 			"outputPathKey": "Pgs.Generated.outputPathKey", "strconv.IntSize": "64", "0": "0"},
 		calls: map[string]string{"index": "Pgs.C19.get", "assign": "Pgs.C19.set",
@@ -530,7 +581,7 @@ func parSpec(name, lean, binders, ret, mode string) *fnSpec {
 func codeSpecs() []*fnSpec {
 	return []*fnSpec{
 		// C11
-		{file: "artifact.go", recv: "", name: "cleanGeneratorFileName", lean: "cleanGeneratorFileName", binders: "(name : Pgs.Bytes)",
+		{file: "artifact.go", recv: "", name: "cleanGeneratorFileName", pn: []string{"name"}, lean: "cleanGeneratorFileName", binders: "(name : Pgs.Bytes)",
 			ret: "Except Pgs.Bytes Pgs.Bytes", mode: "err", locals: nil,
 			exprs: map[string]string{"name": "name"},
 			calls: map[string]string{"filepath.IsAbs": "Pgs.FilePath.isAbs", "filepath.Clean": "Pgs.FilePath.clean", "filepath.ToSlash": "toSlashUnix",
@@ -559,46 +610,46 @@ func codeSpecs() []*fnSpec {
 		parSpec("Bool", "parameters_Bool", "(p : Pgs.C19.Map) (name : Pgs.Bytes)", "Except Pgs.Bytes Bool", "err"),
 		parSpec("SetBool", "parameters_SetBool", "(p : Pgs.C19.Map) (name : Pgs.Bytes) (b : Bool)", "Pgs.C19.Map", "void"),
 		// C09
-		{file: "proto.go", recv: "Syntax", name: "SupportsRequiredPrefix", lean: "syntax_SupportsRequiredPrefix", binders: "(s : Pgs.Bytes)", ret: "Bool",
+		{file: "proto.go", rn: "s", recv: "Syntax", name: "SupportsRequiredPrefix", lean: "syntax_SupportsRequiredPrefix", binders: "(s : Pgs.Bytes)", ret: "Bool",
 			exprs: map[string]string{"s": "s", "Proto2": "Pgs.Generated.syntaxProto2"}},
-		{file: "file.go", recv: "file", name: "Syntax", lean: "file_Syntax", binders: "(descSyntax : Pgs.Bytes)", ret: "Pgs.Bytes",
+		{file: "file.go", rn: "f", recv: "file", name: "Syntax", lean: "file_Syntax", binders: "(descSyntax : Pgs.Bytes)", ret: "Pgs.Bytes",
 			exprs: map[string]string{"f.desc.GetSyntax()": "descSyntax", "Proto2": "Pgs.Generated.syntaxProto2"},
 			calls: map[string]string{"Syntax": "id"}},
-		{file: "field.go", recv: "field", name: "InRealOneOf", lean: "field_InRealOneOf", binders: "(f : FieldEnv)", ret: "Bool", exprs: fieldExprs},
-		{file: "field.go", recv: "field", name: "HasOptionalKeyword", lean: "field_HasOptionalKeyword", binders: "(f : FieldEnv)", ret: "Bool", exprs: fieldExprs},
-		{file: "field.go", recv: "field", name: "HasPresence", lean: "field_HasPresence", binders: "(f : FieldEnv)", ret: "Bool", exprs: fieldExprs},
-		{file: "field.go", recv: "field", name: "Required", lean: "field_Required", binders: "(f : FieldEnv)", ret: "Bool", exprs: fieldExprs},
-		{file: "oneof.go", recv: "oneof", name: "IsSynthetic", lean: "oneof_IsSynthetic", binders: "(o : OneofEnv)", ret: "Bool",
+		{file: "field.go", rn: "f", recv: "field", name: "InRealOneOf", lean: "field_InRealOneOf", binders: "(f : FieldEnv)", ret: "Bool", exprs: fieldExprs},
+		{file: "field.go", rn: "f", recv: "field", name: "HasOptionalKeyword", lean: "field_HasOptionalKeyword", binders: "(f : FieldEnv)", ret: "Bool", exprs: fieldExprs},
+		{file: "field.go", rn: "f", recv: "field", name: "HasPresence", lean: "field_HasPresence", binders: "(f : FieldEnv)", ret: "Bool", exprs: fieldExprs},
+		{file: "field.go", rn: "f", recv: "field", name: "Required", lean: "field_Required", binders: "(f : FieldEnv)", ret: "Bool", exprs: fieldExprs},
+		{file: "oneof.go", rn: "o", recv: "oneof", name: "IsSynthetic", lean: "oneof_IsSynthetic", binders: "(o : OneofEnv)", ret: "Bool",
 			exprs: map[string]string{"o.Syntax()": "o.syn", "len(o.flds)": "o.nflds", "o.flds[0].InRealOneOf()": "o.firstInRealOneOf",
 				"Proto3": "Pgs.Generated.syntaxProto3"}},
-		{file: "field.go", recv: "field", name: "Syntax", lean: "field_Syntax", binders: "(containerSyntax : Pgs.Bytes)", ret: "Pgs.Bytes", exprs: map[string]string{"f.msg.Syntax()": "containerSyntax"}},
-		{file: "oneof.go", recv: "oneof", name: "Syntax", lean: "oneof_Syntax", binders: "(containerSyntax : Pgs.Bytes)", ret: "Pgs.Bytes", exprs: map[string]string{"o.msg.Syntax()": "containerSyntax"}},
-		{file: "message.go", recv: "msg", name: "Syntax", lean: "msg_Syntax", binders: "(containerSyntax : Pgs.Bytes)", ret: "Pgs.Bytes", exprs: map[string]string{"m.parent.Syntax()": "containerSyntax"}},
-		{file: "enum.go", recv: "enum", name: "Syntax", lean: "enum_Syntax", binders: "(containerSyntax : Pgs.Bytes)", ret: "Pgs.Bytes", exprs: map[string]string{"e.parent.Syntax()": "containerSyntax"}},
-		{file: "enum_value.go", recv: "enumVal", name: "Syntax", lean: "enumVal_Syntax", binders: "(containerSyntax : Pgs.Bytes)", ret: "Pgs.Bytes", exprs: map[string]string{"ev.enum.Syntax()": "containerSyntax"}},
-		{file: "extension.go", recv: "ext", name: "Syntax", lean: "ext_Syntax", binders: "(containerSyntax : Pgs.Bytes)", ret: "Pgs.Bytes", exprs: map[string]string{"e.parent.Syntax()": "containerSyntax"}},
-		{file: "method.go", recv: "method", name: "Syntax", lean: "method_Syntax", binders: "(containerSyntax : Pgs.Bytes)", ret: "Pgs.Bytes", exprs: map[string]string{"m.service.Syntax()": "containerSyntax"}},
-		{file: "service.go", recv: "service", name: "Syntax", lean: "service_Syntax", binders: "(containerSyntax : Pgs.Bytes)", ret: "Pgs.Bytes", exprs: map[string]string{"s.file.Syntax()": "containerSyntax"}},
-		{file: "field.go", recv: "field", name: "InOneOf", lean: "field_InOneOf", binders: "(oneofIsNil : Bool)", ret: "Bool", exprs: map[string]string{"f.oneof != nil": "(!oneofIsNil)"}},
+		{file: "field.go", rn: "f", recv: "field", name: "Syntax", lean: "field_Syntax", binders: "(containerSyntax : Pgs.Bytes)", ret: "Pgs.Bytes", exprs: map[string]string{"f.msg.Syntax()": "containerSyntax"}},
+		{file: "oneof.go", rn: "o", recv: "oneof", name: "Syntax", lean: "oneof_Syntax", binders: "(containerSyntax : Pgs.Bytes)", ret: "Pgs.Bytes", exprs: map[string]string{"o.msg.Syntax()": "containerSyntax"}},
+		{file: "message.go", rn: "m", recv: "msg", name: "Syntax", lean: "msg_Syntax", binders: "(containerSyntax : Pgs.Bytes)", ret: "Pgs.Bytes", exprs: map[string]string{"m.parent.Syntax()": "containerSyntax"}},
+		{file: "enum.go", rn: "e", recv: "enum", name: "Syntax", lean: "enum_Syntax", binders: "(containerSyntax : Pgs.Bytes)", ret: "Pgs.Bytes", exprs: map[string]string{"e.parent.Syntax()": "containerSyntax"}},
+		{file: "enum_value.go", rn: "ev", recv: "enumVal", name: "Syntax", lean: "enumVal_Syntax", binders: "(containerSyntax : Pgs.Bytes)", ret: "Pgs.Bytes", exprs: map[string]string{"ev.enum.Syntax()": "containerSyntax"}},
+		{file: "extension.go", rn: "e", recv: "ext", name: "Syntax", lean: "ext_Syntax", binders: "(containerSyntax : Pgs.Bytes)", ret: "Pgs.Bytes", exprs: map[string]string{"e.parent.Syntax()": "containerSyntax"}},
+		{file: "method.go", rn: "m", recv: "method", name: "Syntax", lean: "method_Syntax", binders: "(containerSyntax : Pgs.Bytes)", ret: "Pgs.Bytes", exprs: map[string]string{"m.service.Syntax()": "containerSyntax"}},
+		{file: "service.go", rn: "s", recv: "service", name: "Syntax", lean: "service_Syntax", binders: "(containerSyntax : Pgs.Bytes)", ret: "Pgs.Bytes", exprs: map[string]string{"s.file.Syntax()": "containerSyntax"}},
+		{file: "field.go", rn: "f", recv: "field", name: "InOneOf", lean: "field_InOneOf", binders: "(oneofIsNil : Bool)", ret: "Bool", exprs: map[string]string{"f.oneof != nil": "(!oneofIsNil)"}},
 		// C17: lang/go/type_name.go
-		{file: "lang/go/type_name.go", recv: "TypeName", name: "IsPointer", lean: "typeName_IsPointer", binders: "(n : Pgs.Bytes)", ret: "Bool",
+		{file: "lang/go/type_name.go", rn: "n", recv: "TypeName", name: "IsPointer", lean: "typeName_IsPointer", binders: "(n : Pgs.Bytes)", ret: "Bool",
 			exprs: map[string]string{"string(n)": "n"},
 			calls: map[string]string{"strings.HasPrefix": "hasPrefix"}},
-		{file: "lang/go/type_name.go", recv: "TypeName", name: "Pointer", lean: "typeName_Pointer", binders: "(n : Pgs.Bytes)", ret: "Pgs.Bytes",
+		{file: "lang/go/type_name.go", rn: "n", recv: "TypeName", name: "Pointer", lean: "typeName_Pointer", binders: "(n : Pgs.Bytes)", ret: "Pgs.Bytes",
 			exprs: map[string]string{"string(n)": "n", "n": "n", "n.IsPointer()": "(typeName_IsPointer n)"},
 			calls: map[string]string{"TypeName": "id"}},
-		{file: "lang/go/type_name.go", recv: "context", name: "Type", lean: "context_Type", binders: "(e : TypeEnv)", ret: "Pgs.Bytes",
+		{file: "lang/go/type_name.go", rn: "c", pn: []string{"f"}, recv: "context", name: "Type", lean: "context_Type", binders: "(e : TypeEnv)", ret: "Pgs.Bytes",
 			exprs: map[string]string{"f.Type()": "e", "ft.IsMap()": "e.isMap", "ft.IsRepeated()": "e.isRepeated", "ft.IsEmbed()": "e.isEmbed", "ft.IsEnum()": "e.isEnum",
 				"scalarType(ft.Key().ProtoType())": "e.keyScalar", "c.elType(ft)": "e.elType", "c.importableTypeName(f, ft.Embed())": "e.embedName",
 				"c.importableTypeName(f, ft.Enum())": "e.enumName", "scalarType(ft.ProtoType())": "e.scalar", "f.HasPresence()": "e.hasPresence"},
 			calls:   map[string]string{"TypeName": "id", "fmt.Sprintf": "list:sprintf"},
 			methods: map[string]string{"Pointer": "typeName_Pointer"}},
-		{file: "lang/go/type_name.go", recv: "context", name: "elType", lean: "context_elType", binders: "(e : ElemEnv)", ret: "Pgs.Bytes",
+		{file: "lang/go/type_name.go", rn: "c", pn: []string{"ft"}, recv: "context", name: "elType", lean: "context_elType", binders: "(e : ElemEnv)", ret: "Pgs.Bytes",
 			exprs: map[string]string{"ft.Element()": "e", "el.IsEnum()": "e.isEnum", "el.IsEmbed()": "e.isEmbed",
 				"c.importableTypeName(ft.Field(), el.Enum())": "e.enumName", "c.importableTypeName(ft.Field(), el.Embed())": "e.embedName",
 				"scalarType(el.ProtoType())": "e.scalar"},
 			methods: map[string]string{"Pointer": "typeName_Pointer"}},
-		{file: "lang/go/type_name.go", recv: "context", name: "importableTypeName", lean: "context_importableTypeName",
+		{file: "lang/go/type_name.go", rn: "c", pn: []string{"f", "e"}, recv: "context", name: "importableTypeName", lean: "context_importableTypeName",
 			binders: "(name importPathE importPathF packageNameE : Pgs.Bytes)", ret: "Pgs.Bytes",
 			exprs: map[string]string{"c.Name(e)": "name", "c.ImportPath(e)": "importPathE", "c.ImportPath(f)": "importPathF", "c.PackageName(e)": "packageNameE"},
 			calls: map[string]string{"TypeName": "id", "fmt.Sprintf": "list:sprintf"}},
